@@ -5,7 +5,7 @@
    lib/loop_job.c, lib/util.c clock).  `fixed' = the tree with fixes/C09-*.patch, `as_found' = commit 6c47408. *)
 From Coq Require Import ZArith List Bool Sorted.
 Require Import Verif.gen.Consts_looptimer Verif.HeapModel Verif.HeapProofs Verif.LoopTimerModel
-               Verif.LoopTimerArith Verif.LoopTimerWitness Verif.LoopTimerProofs.
+               Verif.LoopTimerArith Verif.LoopTimerWitness Verif.LoopTimerProofs Verif.LoopTimerStrong.
 Import ListNotations.
 Local Open Scope Z_scope.
 
@@ -192,6 +192,42 @@ Example C09_fixed_witnesses :
   In (EPoll 2147483647 1000) (out (run fixed [] init0 w_timeout2)) /\
   hd (ENote 0) (out (run fixed [] init0 w_rerun)) = EPoll 0 1001002.
 Proof. exact (conj (proj1 timeout_fixed_witness) (conj (proj2 timeout_fixed_witness) rerun_fixed_witness)). Qed.
+
+(* ---------------------------------------------------------------- loop level: consistency, no assert fails *)
+(* END TO END, repaired code (the three C09 fixes and fixes/C08-timer-del-forged-handle.patch), ALL histories
+   (any API calls with any handle values, any callback behaviours, priorities in the enum, uint64_t durations):
+   in every reachable state - also in the middle of callbacks - `Sp [] st' holds: err = false (no assert() of
+   tlist.h or loop_timerlist.c failed, no model loop ran out of fuel), the heap invariant (order + back pointers),
+   every heap entry belongs to exactly one ACTIVE slot that points back to it and vice versa, every timer item on
+   a job list is a JOBLIST slot of that priority and is listed once. *)
+Theorem C09_consistent_all_histories : forall beh ops hz0 clk0 cstep0,
+  wf2_beh beh -> Forall wf2_op ops -> S (run fixed beh (lp_init hz0 clk0 cstep0) ops).
+Proof. exact consistent_all_histories. Qed.
+Print Assumptions C09_consistent_all_histories.
+
+Theorem C09_no_assert_fails : forall beh ops hz0 clk0 cstep0,
+  wf2_beh beh -> Forall wf2_op ops ->
+  let st := run fixed beh (lp_init hz0 clk0 cstep0) ops in
+  err st = false /\ heap_ok (ents (heap st)) /\ bp_ok (heap st).
+Proof. exact (fun beh ops hz0 clk0 cstep0 hb ho =>
+  let H := consistent_all_histories beh ops hz0 clk0 cstep0 hb ho in
+  conj (s_err _ _ H) (conj (proj1 (s_hinv _ _ H)) (proj2 (s_hinv _ _ H)))). Qed.
+Print Assumptions C09_no_assert_fails.
+
+(* without the zero-check test the invariant is false: a forged handle used inside a callback leaves a heap entry
+   whose slot is EMPTY, and the assert of make_job_from_tmo fails when it expires *)
+Theorem C09_consistent_refuted :
+  let st := run fx_without_chk0 w_forged_beh init0 w_forged in
+  err st = false /\ map t_data (ents (heap st)) = [1; 0] /\ map s_state (slots st) = [LT_ENTRY_ACTIVE; LT_ENTRY_EMPTY] /\
+  In (ENote 2) (out st) /\ err (run fx_without_chk0 w_forged_beh init0 w_forged2) = true.
+Proof. exact forged_handle_refuted. Qed.
+Print Assumptions C09_consistent_refuted.
+
+Example C09_consistent_example :
+  let st := run fixed w_forged_beh init0 w_forged2 in
+  err st = false /\
+  filter (fun e => match e with ECb _ _ _ => true | _ => false end) (rev (out st)) = [ECb 0 2 2001003; ECb 0 4 16001007].
+Proof. exact forged_handle_fixed_witness. Qed.
 
 (* ---------------------------------------------------------------- the queries *)
 (* time-remaining / is-running / expire-time agree, in any state: is_running <> 0 exactly when expire_time_get <> 0;
